@@ -141,6 +141,23 @@ fn eval_random(_ctx: &Ctx, case: &RandomCase) -> Verdict {
         ensure!(*g >= 0.0, "project of a non-negative spectrum has negative cell {i} = {g}");
     }
     ensure!(close(got.sum(), spec.sum(), tol, scale), "projection {shape:?} -> {to:?} changed the mass: {} -> {}", spec.sum(), got.sum());
+    // the frequency type-state: projecting the normalised spectrum gives the projection of the
+    // normalised values (no renormalisation, clamping or state-dependent shortcut)
+    if spec.sum() > 0.0 && spec.values.iter().all(|v| v.is_finite() && *v >= 0.0) {
+        let scs = spec.to_scs();
+        let to2 = to.clone();
+        let r = guard(move || {
+            let sfs = scs.into_normalized();
+            (Spec::from_scs(&sfs), sfs.project(to2).map(|p| Spec::from_scs(&p)).map_err(|e| e.to_string()))
+        })
+        .map_err(|p| Failure::new(format!("project of the normalised spectrum ({shape:?} -> {to:?}): {p}")))?;
+        let (normalised, projected) = r;
+        let projected = projected.map_err(|e| Failure::new(format!("project of the normalised spectrum ({shape:?} -> {to:?}) failed: {e}")))?;
+        let want_n = normalised.project(&to);
+        for (i, (g, w)) in projected.values.iter().zip(&want_n.values).enumerate() {
+            ensure!(close(*g, *w, tol, 1e-3), "project of the normalised spectrum (Sfs) {:?} -> {to:?}: cell {i} = {g}, direct double sum over the normalised values gives {w}", spec);
+        }
+    }
     // homogeneity: scaling the input by a power of two scales the output exactly (also for tiny weights)
     for e in [-70i32, 40] {
         let c = 2f64.powi(e);
@@ -222,6 +239,13 @@ pub struct LargeCase {
 fn ln_binom(n: usize, m: usize) -> f64 {
     let m = m.min(n - m);
     (0..m).map(|i| ((n - i) as f64).ln() - ((i + 1) as f64).ln()).sum()
+}
+
+#[derive(Clone, Debug, Serialize, Deserialize)]
+pub struct NdCase {
+    pub shape: Vec<usize>,
+    /// target shape
+    pub to: Vec<usize>,
 }
 
 /// Smallest m with C(n, m) > f64::MAX, if any.
@@ -502,6 +526,40 @@ pub fn check(ctx: &Ctx) -> Check {
             cases: ctx.tier.pick(1500, 60_000),
             strategy: Box::new(|| random_strategy().boxed()),
             eval: Box::new(eval_random),
+        }),
+        Box::new(crate::engine::EnumPart {
+            name: "large-nd",
+            rule: "spectra of 4 160 .. 8 910 cells in 2..4 axes (every cell carries mass) projected to small and mid-sized targets: every output cell against the direct double sum over the per-axis hypergeometric tables (1e-9 relative), mass preserved",
+            exhaustive: false,
+            cases: Box::new(|_| {
+                let list: Vec<(Vec<usize>, Vec<usize>)> = vec![
+                    (vec![65, 64], vec![5, 4]),
+                    (vec![65, 64], vec![33, 32]),
+                    (vec![65, 64], vec![65, 1]),
+                    (vec![3, 2731], vec![2, 9]),
+                    (vec![3, 2731], vec![3, 40]),
+                    (vec![17, 17, 15], vec![4, 5, 3]),
+                    (vec![17, 17, 15], vec![9, 9, 8]),
+                    (vec![9, 8, 8, 9], vec![3, 2, 4, 3]),
+                    (vec![10, 9, 11, 9], vec![5, 5, 5, 5]),
+                    (vec![2, 4099], vec![2, 3]),
+                ];
+                list.into_iter().map(|(shape, to)| NdCase { shape, to }).collect()
+            }),
+            eval: Box::new(|_ctx: &Ctx, case: &NdCase| {
+                let n: usize = case.shape.iter().product();
+                let values: Vec<f64> = (0..n as u64).map(|i| 1.0 + (crate::engine::splitmix64(0xC03D ^ i) % 50) as f64).collect();
+                let spec = Spec::new(case.shape.clone(), values);
+                let got = must_project(&spec, &case.to)?;
+                let want = spec.project(&case.to);
+                ensure!(got.shape == want.shape, "project({:?} -> {:?}) has shape {:?}", case.shape, case.to, got.shape);
+                for (i, (g, w)) in got.values.iter().zip(&want.values).enumerate() {
+                    ensure!((g - w).abs() <= 1e-9 * w.abs() + 1e-300, "project({:?} -> {:?}): flat cell {i} = {g}, the double sum gives {w}", case.shape, case.to);
+                }
+                let (m0, m1) = (spec.sum(), got.sum());
+                ensure!((m0 - m1).abs() <= 1e-9 * m0, "project({:?} -> {:?}) changed the mass {m0} -> {m1}", case.shape, case.to);
+                Ok(Pass::new().nontrivial(true).label(format!("axes={}", case.shape.len())))
+            }),
         }),
         Box::new(RandomPart {
             name: "large-1d",
